@@ -304,7 +304,9 @@ def load_known():
 
 def finish(run, t0, explanation, seed=0, replay_key=None):
     """subtract known findings, print lines, write evidence, return exit code"""
-    known = [k for k in load_known() if k.get("property") == run.prop]
+    # a finding is identified by its obligation key; clauses shared between properties (e.g. R07.2 evaluated under C03)
+    # carry the same key, so the entry applies wherever that clause is evaluated
+    known = load_known()
     known_keys = {k["key"]: k for k in known if k.get("status") == "known"}
     viol = [o for o in run.obs if not o.ok]
     unlisted = [o for o in viol if o.key not in known_keys]
